@@ -1,0 +1,9 @@
+//go:build verif
+
+package dkim
+
+import "github.com/foxcpp/maddy/framework/dns"
+
+// VerifSetResolver replaces the DNS resolver of a check.dkim instance.
+// Verification harness only (build tag verif); nothing else is touched.
+func VerifSetResolver(c *Check, r dns.Resolver) { c.resolver = r }
